@@ -199,9 +199,15 @@ def run(ctx):
     cov = {"states": states, "transitions": trans, "traces_validated_against_impl": hists, "samples": samples[:5],
            "exhaustive": True, "behaviours": hists, "publishes": pubs, "reads": reads,
            "known_finding_behaviours": known_counts}
-    consumers(ctx, cov)
-    source(ctx, cov)
-    gossip(ctx, cov)
+    # the further components build on what the watcher publishes: if one of them cannot do its work (a tool error) after
+    # a violation has already been found, the violation is what gets reported
+    for part in (consumers, source, gossip):
+        try:
+            part(ctx, cov)
+        except vlib.ToolError as e:
+            if not ctx.violations:
+                raise
+            ctx.notes.append("%s could not be judged after the violations above: %s" % (part.__name__, str(e)[:300]))
     return vlib.finish(ctx, "model_checking", cov, ASSUMPTIONS)
 
 
